@@ -532,7 +532,7 @@ static void run_case(char **tok, int ntok)
 					r = code_once(&c, &strm, a);
 					if (++guard > 50000000u) { fail(&c, "no-progress", op); dead = true; break; }
 					// no encoder expands its input by more than a few percent plus per-Block overhead
-					if (c.output.n > 2 * (c.input.n + dn) + ((size_t)1 << 20)) { fail(&c, "runaway-output", op); dead = true; break; }
+					if (c.output.n > 2 * (c.input.n + dn) + 16384 + 1024 * (size_t)(op + 1)) { fail(&c, "runaway-output", op); dead = true; break; }
 				} while (r == LZMA_OK);
 			}
 			const uint64_t used = strm.total_in - in_before;
